@@ -411,35 +411,72 @@ def autosave_content(ctx) -> None:
 
 
 def evaluation_time_filter(ctx) -> None:
-    """_is_evaluation_time(observable, t): (the observable has its own times and t is one of them) or (t is a default
-    evaluation time) — in both backends."""
+    """_is_evaluation_time(observable, t): an observable with its own evaluation times is due exactly at those; only an
+    observable without own times is due at the config's default times (Pulser's Observable.__call__ has the same rule but
+    a half-nanosecond tolerance: if the backend's filter lets a default time through for an observable with own times,
+    Pulser records it there whenever one of its own times is that close — twice for one request).  Both backends."""
     prog = ctx.prog
     for cq in (IMPL + ".MPSBackendImpl", "emu_sv.sv_backend_impl.SVBackendImpl"):
         K = prog.cls(cq)
         f = K.methods["_is_evaluation_time"]
         it = Interp(prog, K, inline=lambda c, r, d: False)
-        ok = False
+        # truth table over (own times given?) of what the returned value consults
+        table = {}
         got = "?"
         for p in it.run(f):
             if p.status != "return":
                 continue
             r = strip_typed(p.retval)
-            got = show(r)[:100]
-            if r[0] == "bool" and r[1] == "or" and len(r[2]) == 2:
-                a, b = (strip_typed(x) for x in r[2])
-                def own(t):
-                    if not (t[0] == "bool" and t[1] == "and" and len(t[2]) == 2):
-                        return False
-                    x, y = (strip_typed(z) for z in t[2])
-                    notnone = lambda u: u[0] == "cmp" and u[1] in ("isnot", "!=") and "evaluation_times" in show(u) and strip_typed(u[3]) == ("const", None)  # noqa: E731
-                    isin = lambda u: u[0] == "mcall" and u[2].endswith("is_time_in_evaluation_times")  # noqa: E731
-                    return (notnone(x) and isin(y)) or (notnone(y) and isin(x))
-                dflt = lambda t: t[0] == "mcall" and t[2].endswith("is_evaluation_time")  # noqa: E731
-                ok = (own(a) and dflt(b)) or (own(b) and dflt(a))
+            got = show(r)[:110]
+            own_given = None
+            for c, t in p.cond_log:
+                c0 = strip_typed(c)
+                if c0[0] == "cmp" and c0[1] in ("is", "isnot", "==", "!=") and "evaluation_times" in show(c0[2]) and strip_typed(c0[3]) == ("const", None):
+                    own_given = (not t) if c0[1] in ("is", "==") else t
+            table.setdefault(own_given, []).append(r)
+
+        def value(t, own_given, OWN, DEF):
+            """truth value of the returned formula for one assignment of its atoms (None = not understood)"""
+            t = strip_typed(t)
+            if t[0] == "mcall" and t[2].endswith("is_time_in_evaluation_times"):
+                return OWN
+            if t[0] == "mcall" and t[2].endswith("is_evaluation_time"):
+                return DEF
+            if t[0] == "const":
+                return bool(t[1])
+            if t[0] == "cmp" and "evaluation_times" in show(t[2]) and strip_typed(t[3]) == ("const", None):
+                return (t[1] in ("isnot", "!=")) == own_given
+            if t[0] == "un" and t[1] == "not":
+                v = value(t[2], own_given, OWN, DEF)
+                return None if v is None else (not v)
+            if t[0] == "bool":
+                vals = [value(x, own_given, OWN, DEF) for x in t[2]]
+                if any(v is None for v in vals):
+                    return None
+                return all(vals) if t[1] == "and" else any(vals)
+            return None
+
+        ok = bool(table)
+        wrong = []
+        for og_path, rs in table.items():
+            for og in ((True, False) if og_path is None else (og_path,)):
+                for OWN in (True, False):
+                    for DEF in (True, False):
+                        for r in rs:
+                            v = value(r, og, OWN, DEF)
+                            want = OWN if og else DEF
+                            if v is None:
+                                raise AnalysisError(f"ONCE-filter: cannot evaluate the value returned by {K.name}._is_evaluation_time: {show(r)[:100]}")
+                            if v != want:
+                                ok = False
+                                wrong.append(f"own times {'given' if og else 'absent'}, t {'in' if OWN else 'not in'} own times, "
+                                             f"{'a' if DEF else 'not a'} default time → {v}")
+        rows = {True: wrong[:1], False: []}
         ctx.ob("ONCE-filter", f"{K.name}._is_evaluation_time", f.loc(), ok,
-               "due ⇔ (own evaluation times given and t among them) or (t is a default evaluation time)" if ok else
-               f"{K.name}._is_evaluation_time returns {got}: observables are skipped at (or recorded outside) their "
-               f"evaluation times")
+               "own evaluation times given → due exactly at those; none given → due at the default evaluation times" if ok else
+               f"{K.name}._is_evaluation_time returns {got}, which is not (t in own times) when own times are given and "
+               f"(t a default time) otherwise — e.g. {wrong[0] if wrong else '?'}: observables are skipped at their times, or "
+               f"let through at a default evaluation time where Pulser's half-nanosecond tolerance records them a second time")
 
 
 def sweep_boundaries(ctx) -> None:
